@@ -3,7 +3,10 @@ use crate::rng::Rng;
 use crate::{Ctx, Tier};
 use scylla::policies::timestamp_generator::{MonotonicTimestampGenerator, TimestampGenerator};
 use scylla::verif_hooks::clock;
+use std::panic::{AssertUnwindSafe, catch_unwind};
+use std::sync::atomic::{AtomicUsize, Ordering};
 use std::sync::{Arc, Barrier};
+use std::time::{Duration, Instant};
 
 const BASE: u64 = 1_700_000_000_000_000; // a plausible "now" in µs
 
@@ -36,7 +39,28 @@ fn fmt_script(s: &[Option<u64>]) -> String {
     s.iter().map(|e| e.map(|u| u.to_string()).unwrap_or_else(|| "n".into())).collect::<Vec<_>>().join(",")
 }
 
+/// The cases are emitted with the (expensive) multi-thread kinds spread evenly among the single-thread ones, so that
+/// the runner's contiguous chunks take similar time.
 pub fn generate(rng: &mut Rng, tier: Tier, emit: &mut dyn FnMut(String)) {
+    let mut lines: Vec<String> = Vec::new();
+    generate_all(rng, tier, &mut |l| lines.push(l));
+    let (heavy, light): (Vec<String>, Vec<String>) = lines.into_iter().partition(|l| l.starts_with("mt"));
+    let every = (light.len() / heavy.len().max(1)).max(1);
+    let mut heavy = heavy.into_iter();
+    for (i, l) in light.into_iter().enumerate() {
+        if i % every == 0 {
+            if let Some(h) = heavy.next() {
+                emit(h);
+            }
+        }
+        emit(l);
+    }
+    for h in heavy {
+        emit(h);
+    }
+}
+
+fn generate_all(rng: &mut Rng, tier: Tier, emit: &mut dyn FnMut(String)) {
     let scale = if tier == Tier::Quick { 1 } else { 20 };
     emit("seq 3 -".into());
     for _ in 0..3000 * scale {
@@ -57,6 +81,205 @@ pub fn generate(rng: &mut Rng, tier: Tier, emit: &mut dyn FnMut(String)) {
             .collect();
         emit(format!("mt {} {}", calls, scripts.join("|")));
     }
+    // ---- the warning arm of compute_next (lines 109-130): generators built with `with_warning_times`
+    const W_SEQ: &[&str] = &[
+        "0/0", "0/0", "0/0", "1/0", "1/0", "2/0", "1000000/0", "9223372036854775807/0", "9223372036854775808/0", "18446744073709551615/0",
+        "d", "-", "0/1", "1/1000", "0/1000000000", "0/max", "1/max", "1000000/max",
+    ];
+    emit("seqw 0/0 5 10,10,7,n,3".into());
+    emit("seqw 1/0 6 10,10,9,8,n,100".into());
+    emit("seqw 0/max 5 10,5,20,5,30".into());
+    for _ in 0..2500 * scale {
+        let calls = 1 + rng.below(40) as usize;
+        let slen = rng.below(calls as u64 + 3) as usize;
+        let s = script(rng, slen);
+        emit(format!("seqw {} {} {}", rng.pick(W_SEQ), calls, fmt_script(&s)));
+    }
+    const W_MT: &[&str] = &["0/0", "0/0", "1/0", "1/0", "1000000/0", "d", "0/1", "9223372036854775808/0"];
+    for _ in 0..60 * scale {
+        let threads = 2 + rng.below(7) as usize;
+        let calls = match rng.below(3) { 0 => 10, 1 => 200, _ => 1000 };
+        let same = rng.bool();
+        let first_len = 1 + rng.below(30) as usize;
+        let first = script(rng, first_len);
+        let scripts: Vec<String> = (0..threads)
+            .map(|_| if same { fmt_script(&first) } else { let n = 1 + rng.below(30) as usize; fmt_script(&script(rng, n)) })
+            .collect();
+        emit(format!("mtw {} {} {}", rng.pick(W_MT), calls, scripts.join("|")));
+    }
+    // ---- paced rounds under a scripted clock: in every round ALL threads read the same value, mostly one far ahead
+    // of `last` (so that every thread sees a genuine clock reading ahead of the counter, not the last+1 path)
+    const W_P: &[&str] = &["-", "-", "0/0", "1/0", "d"];
+    for _ in 0..60 * scale {
+        let threads = 2 + rng.below(7);
+        let per = 1 + rng.below(3);
+        let rounds = 20 + rng.below(130) as usize;
+        let mut cur = if rng.chance(1, 5) { rng.below(40) } else { BASE + rng.below(1000) };
+        let mut readings = Vec::with_capacity(rounds);
+        for _ in 0..rounds {
+            let e = match rng.below(20) {
+                0 | 1 => Some(cur),                                                          // stalled: every thread takes last+1
+                2 => { cur = cur.saturating_sub(1 + rng.below(3_000_000)); Some(cur) }       // the clock steps back
+                3 => None,                                                                   // before the epoch
+                4 => { cur += 1 + rng.below(threads * per + 2); Some(cur) }                  // ahead of some threads only
+                _ => { cur += threads * per + 2 + rng.below(5000); Some(cur) }               // far ahead of `last` for every thread
+            };
+            readings.push(e);
+        }
+        emit(format!("mtp {} {} {} {}", rng.pick(W_P), threads, per, fmt_script(&readings)));
+    }
+    // ---- paced rounds on the REAL clock (the busy-wait lets the clock get ahead of the counter)
+    for _ in 0..40 * scale {
+        emit(format!(
+            "mtreal {} {} {} {} {}",
+            rng.pick(&["-", "d", "0/0", "d"]),
+            2 + rng.below(7),
+            60 + rng.below(240),
+            1 + rng.below(2),
+            *rng.pick(&[0u64, 3, 10, 20, 20, 40, 80])
+        ));
+    }
+}
+
+/// warnings word: `-` without_warnings, `d` new(), `<thr_us>/<ivl_ns>` | `<thr_us>/max` with_warning_times
+#[derive(Clone, Copy, PartialEq)]
+enum Warn {
+    Off,
+    Default,
+    Times(u64, Option<u64>),
+}
+
+fn parse_warn(s: &str) -> Option<Warn> {
+    match s {
+        "-" => Some(Warn::Off),
+        "d" => Some(Warn::Default),
+        _ => {
+            let (t, i) = s.split_once('/')?;
+            let t = t.parse().ok()?;
+            if i == "max" { Some(Warn::Times(t, None)) } else { Some(Warn::Times(t, Some(i.parse().ok()?))) }
+        }
+    }
+}
+
+fn build(w: Warn) -> MonotonicTimestampGenerator {
+    match w {
+        Warn::Off => MonotonicTimestampGenerator::new().without_warnings(),
+        Warn::Default => MonotonicTimestampGenerator::new(),
+        Warn::Times(t, Some(i)) => MonotonicTimestampGenerator::new().with_warning_times(Duration::from_micros(t), Duration::from_nanos(i)),
+        Warn::Times(t, None) => MonotonicTimestampGenerator::new().with_warning_times(Duration::from_micros(t), Duration::MAX),
+    }
+}
+
+/// Counts the `warn!` events of timestamp_generator.rs (thread-scoped tracing subscriber).
+#[derive(Default)]
+struct WarnCount {
+    epoch: AtomicUsize,
+    skew: AtomicUsize,
+}
+
+struct WarnSub(Arc<WarnCount>);
+
+impl tracing::Subscriber for WarnSub {
+    fn enabled(&self, m: &tracing::Metadata<'_>) -> bool {
+        *m.level() == tracing::Level::WARN && m.target().starts_with("scylla::policies::timestamp_generator")
+    }
+    fn new_span(&self, _: &tracing::span::Attributes<'_>) -> tracing::span::Id {
+        tracing::span::Id::from_u64(1)
+    }
+    fn record(&self, _: &tracing::span::Id, _: &tracing::span::Record<'_>) {}
+    fn record_follows_from(&self, _: &tracing::span::Id, _: &tracing::span::Id) {}
+    fn event(&self, e: &tracing::Event<'_>) {
+        struct V(bool);
+        impl tracing::field::Visit for V {
+            fn record_debug(&mut self, f: &tracing::field::Field, v: &dyn std::fmt::Debug) {
+                if f.name() == "message" && format!("{:?}", v).contains("UNIX epoch") {
+                    self.0 = true;
+                }
+            }
+        }
+        let mut v = V(false);
+        e.record(&mut v);
+        if v.0 { self.0.epoch.fetch_add(1, Ordering::SeqCst) } else { self.0.skew.fetch_add(1, Ordering::SeqCst) };
+    }
+    fn enter(&self, _: &tracing::span::Id) {}
+    fn exit(&self, _: &tracing::span::Id) {}
+}
+
+/// Sense-reversing spin barrier (std's Barrier parks the threads: they wake microseconds apart). Yields after a while
+/// so that it also makes progress on an oversubscribed machine; gives up after 300 s (a peer died).
+struct SpinBarrier {
+    n: usize,
+    count: AtomicUsize,
+    generation: AtomicUsize,
+}
+
+impl SpinBarrier {
+    fn new(n: usize) -> Self {
+        SpinBarrier { n, count: AtomicUsize::new(0), generation: AtomicUsize::new(0) }
+    }
+    fn wait(&self) -> bool {
+        let g = self.generation.load(Ordering::SeqCst);
+        if self.count.fetch_add(1, Ordering::SeqCst) + 1 == self.n {
+            self.count.store(0, Ordering::SeqCst);
+            self.generation.fetch_add(1, Ordering::SeqCst);
+            return true;
+        }
+        let mut spins = 0u64;
+        let mut started: Option<Instant> = None;
+        while self.generation.load(Ordering::SeqCst) == g {
+            spins += 1;
+            if spins < 400 {
+                std::hint::spin_loop();
+            } else {
+                // (short spin: on an oversubscribed machine the thread waited for may not even be running)
+                std::thread::yield_now();
+                if spins % 1024 == 0 && started.get_or_insert_with(Instant::now).elapsed() > Duration::from_secs(300) {
+                    return false;
+                }
+            }
+        }
+        true
+    }
+}
+
+/// ORACLE of every multi-thread kind, on the implementation's own output (C18's statement): along each thread's own
+/// calls strictly increasing, and pairwise distinct across all threads.
+fn judge_threads(per_thread: &[Vec<i64>], ctx: &mut Ctx) {
+    for (t, vs) in per_thread.iter().enumerate() {
+        check_strict(vs, &format!("thread {}", t), ctx);
+    }
+    let mut all: Vec<(i64, usize)> = per_thread.iter().enumerate().flat_map(|(t, vs)| vs.iter().map(move |v| (*v, t))).collect();
+    all.sort_unstable();
+    if let Some(w) = all.windows(2).find(|w| w[0].0 == w[1].0) {
+        ctx.fail(format!("the same timestamp was handed out twice by one generator: {} to thread {} and to thread {}", w[0].0, w[0].1, w[1].1));
+    }
+}
+
+fn join_threads(per_thread: &[Vec<i64>]) -> String {
+    per_thread.iter().map(|vs| join(vs)).collect::<Vec<_>>().join("|")
+}
+
+/// `threads` threads on one generator; `work(t, generator)` runs inside the warn-counting subscriber.
+fn run_threads(warn: Warn, threads: usize, work: Arc<dyn Fn(usize, &MonotonicTimestampGenerator) -> Vec<i64> + Send + Sync>) -> (Vec<Vec<i64>>, Arc<WarnCount>) {
+    let generator = Arc::new(build(warn));
+    let counts = Arc::new(WarnCount::default());
+    let handles: Vec<_> = (0..threads)
+        .map(|t| {
+            let g = Arc::clone(&generator);
+            let c = Arc::clone(&counts);
+            let work = Arc::clone(&work);
+            std::thread::spawn(move || {
+                let dispatch = tracing::Dispatch::new(WarnSub(c));
+                tracing::dispatcher::with_default(&dispatch, || work(t, &g))
+            })
+        })
+        .collect();
+    let per_thread = handles.into_iter().map(|h| h.join().unwrap()).collect();
+    (per_thread, counts)
+}
+
+fn with_counts(vals: String, c: &WarnCount) -> String {
+    format!("{} we={} ws={}", vals, c.epoch.load(Ordering::SeqCst), c.skew.load(Ordering::SeqCst))
 }
 
 fn parse_script(s: &str) -> Vec<Option<u64>> {
@@ -122,6 +345,115 @@ pub fn run(case: &str, ctx: &mut Ctx) -> String {
                 ctx.fail("the same timestamp was handed out twice by one generator");
             }
             per_thread.iter().map(|vs| join(vs)).collect::<Vec<_>>().join("|")
+        }
+        "seqw" if w.len() == 4 => {
+            let (Some(warn), Ok(calls)) = (parse_warn(w[1]), w[2].parse::<usize>()) else { return "bad-case".into() };
+            let script = parse_script(w[3]);
+            let generator = build(warn);
+            let counts = Arc::new(WarnCount::default());
+            let dispatch = tracing::Dispatch::new(WarnSub(Arc::clone(&counts)));
+            clock::install(script);
+            // per call: the value, or None = the call panicked (it returns nothing)
+            let res: Vec<Option<i64>> = tracing::dispatcher::with_default(&dispatch, || {
+                (0..calls).map(|_| catch_unwind(AssertUnwindSafe(|| generator.next_timestamp())).ok()).collect()
+            });
+            clock::uninstall();
+            let vs: Vec<i64> = res.iter().flatten().copied().collect();
+            check_strict(&vs, "single thread, warnings configured", ctx);
+            // the domain of `no_panic_in_domain`: last_warning + interval representable (everything but Duration::MAX here)
+            if !matches!(warn, Warn::Times(_, None)) && res.iter().any(|r| r.is_none()) {
+                ctx.fail(format!(
+                    "next_timestamp() panicked on call #{} although last_warning + warning_interval is representable (no timestamp handed out for a stalled / backwards clock)",
+                    res.iter().position(|r| r.is_none()).unwrap()
+                ));
+            }
+            let vals = if res.is_empty() { "-".to_owned() } else { res.iter().map(|r| r.map_or("P".to_owned(), |v| v.to_string())).collect::<Vec<_>>().join(",") };
+            with_counts(vals, &counts)
+        }
+        "mtw" if w.len() == 4 => {
+            let (Some(warn), Ok(calls)) = (parse_warn(w[1]), w[2].parse::<usize>()) else { return "bad-case".into() };
+            if matches!(warn, Warn::Times(_, None)) {
+                return "bad-case".into();
+            }
+            let scripts: Arc<Vec<Vec<Option<u64>>>> = Arc::new(w[3].split('|').map(parse_script).collect());
+            let n = scripts.len();
+            let barrier = Arc::new(Barrier::new(n));
+            let (per_thread, counts) = run_threads(
+                warn,
+                n,
+                Arc::new(move |t, g| {
+                    clock::install(scripts[t].clone());
+                    barrier.wait();
+                    let vs: Vec<i64> = (0..calls).map(|_| g.next_timestamp()).collect();
+                    clock::uninstall();
+                    vs
+                }),
+            );
+            judge_threads(&per_thread, ctx);
+            with_counts(join_threads(&per_thread), &counts)
+        }
+        "mtp" if w.len() == 5 => {
+            let (Some(warn), Ok(threads), Ok(per)) = (parse_warn(w[1]), w[2].parse::<usize>(), w[3].parse::<usize>()) else { return "bad-case".into() };
+            if matches!(warn, Warn::Times(_, None)) || !(1..=16).contains(&threads) || !(1..=64).contains(&per) {
+                return "bad-case".into();
+            }
+            let readings: Arc<Vec<Option<u64>>> = Arc::new(parse_script(w[4]));
+            let barrier = Arc::new(SpinBarrier::new(threads));
+            let (per_thread, counts) = run_threads(
+                warn,
+                threads,
+                Arc::new(move |_t, g| {
+                    let mut vs = Vec::with_capacity(readings.len() * per);
+                    for r in readings.iter() {
+                        // this round every thread's clock reads `r`, however often it is asked
+                        clock::install(vec![*r]);
+                        if !barrier.wait() {
+                            break;
+                        }
+                        for _ in 0..per {
+                            vs.push(g.next_timestamp());
+                        }
+                    }
+                    clock::uninstall();
+                    vs
+                }),
+            );
+            judge_threads(&per_thread, ctx);
+            with_counts(join_threads(&per_thread), &counts)
+        }
+        "mtreal" if w.len() == 6 => {
+            let (Some(warn), Ok(threads), Ok(rounds), Ok(per), Ok(pause)) =
+                (parse_warn(w[1]), w[2].parse::<usize>(), w[3].parse::<usize>(), w[4].parse::<usize>(), w[5].parse::<u64>())
+            else {
+                return "bad-case".into();
+            };
+            if matches!(warn, Warn::Times(_, None)) || !(1..=16).contains(&threads) || !(1..=64).contains(&per) || rounds > 100_000 || pause > 10_000 {
+                return "bad-case".into();
+            }
+            let barrier = Arc::new(SpinBarrier::new(threads));
+            let (per_thread, counts) = run_threads(
+                warn,
+                threads,
+                Arc::new(move |_t, g| {
+                    let mut vs = Vec::with_capacity(rounds * per);
+                    for _ in 0..rounds {
+                        // let the REAL clock get ahead of the counter, then release all threads at once
+                        let t0 = Instant::now();
+                        while t0.elapsed() < Duration::from_micros(pause) {
+                            std::hint::spin_loop();
+                        }
+                        if !barrier.wait() {
+                            break;
+                        }
+                        for _ in 0..per {
+                            vs.push(g.next_timestamp());
+                        }
+                    }
+                    vs
+                }),
+            );
+            judge_threads(&per_thread, ctx);
+            with_counts(join_threads(&per_thread), &counts)
         }
         _ => "bad-case".into(),
     }
